@@ -9,12 +9,16 @@ def run_deck(job):
     """Worker.  job = dict(tid, deck, opts[, with_witness]) -> trace record."""
     deck = job['deck']
     text = job.get('text') or adeck.concretise(deck)
-    res = conv.convert(text, job.get('opts', ()))
+    res = conv.convert(text, job.get('opts', ()), encoding=job.get('encoding', 'utf-8'))
     rec = {'tid': job['tid'], 'result': res['result'], 'err': res['error'], 'text': text,
            'note': conv.note_cells(res['stdout']), 'warnings': res['warnings'][:3],
            'file': None, 'out': res['out'] if job.get('keep_out') else None,
            'opts': list(job.get('opts', ()))}
-    if res['result'] == 'ok':
+    if res['result'] == 'ok' and not deck['pts'] and not deck['cells']:
+        rec['file'] = t4file.project(t4file.parse(res['out']), [], with_witness=False)
+        rec['file']['cinfo'] = []
+        rec['file']['wit'] = []
+    elif res['result'] == 'ok':
         import hashlib
         rec['out_hash'] = hashlib.sha1(res['out'].encode()).hexdigest()[:12]
         t4 = t4file.parse(res['out'])
